@@ -13,8 +13,10 @@ def override_merge_keys(po: Function) -> Optional[Set[str]]:
     """The attribute set on which an operation-level parameter evicts an earlier (path-level) one, read from the filter
     `[p for p in params if not (p.K1 == new.K1 and p.K2 == new.K2)]` (or its De-Morgan form / an explicit loop with the same test).
     None when no such filter exists."""
+    from sa.flatten import flatten
+
     best: Optional[Set[str]] = None
-    for n in walk_own(po.node):
+    for n in walk_own(flatten(po).node):
         tests: List[Tuple[ast.AST, str]] = []
         if isinstance(n, (ast.ListComp, ast.GeneratorExp)) and len(n.generators) == 1 and len(n.generators[0].ifs) == 1 and isinstance(n.generators[0].target, ast.Name):
             tests.append((n.generators[0].ifs[0], n.generators[0].target.id))
